@@ -2596,6 +2596,21 @@ theorem degree_decomposition (directed : Bool) (A : Adj) (n : Nat) (L1 L2 : List
       simp at e1 e2
       omega
 
+/-- **n.s.i. degree of the whole network = n.s.i. internal degree + n.s.i. cross degree** of the
+node's own group and the other group of a bipartition (the unit diagonal of `A⁺` is counted once,
+in the internal part) -/
+theorem nsi_degree_decomposition (A : Adj) (w : Nat → Rat) (n : Nat) (L1 L2 : List Nat)
+    (h : (L1 ++ L2).Perm (List.range n)) :
+    List.zipWith (· + ·) (nsiCrossDegree A w L1 L1) (nsiCrossDegree A w L1 L2)
+      = L1.map (Net.nsiOutdeg n A w) := by
+  unfold nsiCrossDegree
+  rw [zipWith_map_self]
+  apply List.map_congr_left
+  intro a _
+  have := sum_bipartition h (fun b => if aplus A a b then w b else 0)
+  rw [← this]
+  rfl
+
 /-- internal block of an undirected loop-free network: the entries sum to twice the number of
 linked unordered pairs of the group -/
 theorem internal_sum_even (A : Adj) (hA : Symm A) (hloop : ∀ a, A a a = false) (L : List Nat) :
